@@ -215,7 +215,7 @@ static void nest_doc(vbuf *d, int od, int ad, uint32_t slen, bool with_double)
     for (int i = 0; i < od; i++) { if (i) { vb_u8(d, 0x14); vb_u8(d, 1); vb_u8(d, 'a'); } vb_u8(d, 0x40); }
     vb_u8(d, 0x14); vb_u8(d, 1); vb_u8(d, 'a');
     for (int i = 0; i < ad; i++) vb_u8(d, 0x42);
-    { uint8_t *s = (uint8_t *)malloc(slen + 1); memset(s, 'x', slen); ve_strlike(d, 0x14, s, slen); free(s); }
+    { uint8_t *s = (uint8_t *)malloc(slen + 1); for (uint32_t i = 0; i < slen; i++) s[i] = (uint8_t)"x\"y\\%s\n\t\x80{"[i % 10]; ve_strlike(d, 0x14, s, slen); free(s); }   /* characters a renderer might treat specially */
     { uint32_t bl = slen > 20000 ? 20000 : slen; uint8_t *s = (uint8_t *)malloc(bl + 1); memset(s, 0xB7, bl); ve_strlike(d, 0x18, s, bl); free(s); }   /* a bytes value of the same order */
     ve_int(d, 0x10, 1234567);
     if (with_double) ve_double(d, 0x7FE1CCF385EBC8A0ULL);
@@ -233,6 +233,21 @@ static void wide_doc(vbuf *d, int n)
     vb_u8(d, 0x42); for (int i = 0; i < n; i++) { if (i % 3 == 2) { vb_u8(d, 0x40); vb_u8(d, 0x41); } else ve_int(d, 0x10, i * 7); } vb_u8(d, 0x43);
     ve_strlike(d, 0x14, (const uint8_t *)"zzz", 3); vb_u8(d, 0x40); vb_u8(d, 0x41);
     vb_u8(d, 0x41);
+}
+/* {"a": bytes(E_n)} where E_0 = {} and E_k = {"a": bytes(E_k-1)}: serialized documents embedded in bytes values, n levels */
+static void embed_doc(vbuf *d, int n)
+{
+    vbuf cur, nxt; memset(&cur, 0, sizeof cur); memset(&nxt, 0, sizeof nxt);
+    vb_u8(&cur, 0x40); vb_u8(&cur, 0x41);
+    for (int k = 0; k <= n; k++) {
+        vb_reset(&nxt);
+        vb_u8(&nxt, 0x40); vb_u8(&nxt, 0x14); vb_u8(&nxt, 1); vb_u8(&nxt, 'a');
+        ve_strlike(&nxt, 0x18, cur.p, (uint32_t)cur.n);
+        vb_u8(&nxt, 0x41);
+        vbuf t = cur; cur = nxt; nxt = t;
+    }
+    vb_reset(d); vb_put(d, cur.p, cur.n);
+    vb_free(&cur); vb_free(&nxt);
 }
 static pobj SO; static char stext[300000]; static uint8_t swb[200000];
 static void on_alt(void)
@@ -302,6 +317,8 @@ static void on_alt(void)
         binson_parser_go_into_object(p);
         for (int i = 1; i < a->od && !a->wide; i++) { binson_parser_next(p); binson_parser_go_into_object(p); }
         size_t sz = sizeof stext; binson_parser_to_string(p, stext, &sz, false); binson_parser_print(p);
+        sz = sizeof stext; binson_parser_to_string(p, stext, &sz, true);      /* the `nice` argument (what the C++ toStr passes) */
+        sz = 0; binson_parser_to_string(p, NULL, &sz, true);
     }
 #endif
     swapcontext(&ctx_alt, &ctx_main);
@@ -328,6 +345,8 @@ static void stack_mode(void)
         if (what == 1) break;
 #endif
         size_t lo = (size_t)-1, hi = 0; char lo_at[64] = "", hi_at[64] = "";
+        size_t flo[4] = { (size_t)-1, (size_t)-1, (size_t)-1, (size_t)-1 }, fhi[4] = { 0, 0, 0, 0 };      /* per family: nesting, width, embedded, tight depth */
+#define FAM(f, u) do { if ((u) < flo[f]) flo[f] = (u); if ((u) > fhi[f]) fhi[f] = (u); } while (0)
         for (int warm = 0; warm < 2; warm++)          /* first pass warms up (lazy binding, stdio buffers) and is not counted */
             for (int i = 0; i < 4; i++) for (int j = 0; j < 2; j++) for (int k = 0; k < 2; k++) {
                 /* text functions too: a 70000-byte string and a 20000-byte bytes value (40 KB of hex) */
@@ -337,6 +356,7 @@ static void stack_mode(void)
                 if (!warm) continue;
                 if (u < lo) { lo = u; snprintf(lo_at, sizeof lo_at, "objects=%d arrays=%d string=%u", ODS[i], ADS[j], SLS[k]); }
                 if (u > hi) { hi = u; snprintf(hi_at, sizeof hi_at, "objects=%d arrays=%d string=%u", ODS[i], ADS[j], SLS[k]); }
+                FAM(0, u);
                 vw_count("stack_measurements", 1);
                 vw_nontrivial(vh_hash(&a, sizeof(int) * 4, (uint64_t)what));
             }
@@ -350,8 +370,23 @@ static void stack_mode(void)
                 if (!warm) continue;
                 if (u < lo) { lo = u; snprintf(lo_at, sizeof lo_at, "fields/elements=%d", WIDE[i]); }
                 if (u > hi) { hi = u; snprintf(hi_at, sizeof hi_at, "fields/elements=%d", WIDE[i]); }
+                FAM(1, u);
                 vw_count("stack_measurements", 1);
                 vw_nontrivial(vh_hash(&WIDE[i], sizeof(int), 40 + (uint64_t)what));
+            }
+        /* serialized documents embedded in bytes values, 1..150 levels: to the library they are bytes */
+        static const int EMB[] = { 1, 20, 150 };
+        for (int warm = 0; warm < 2; warm++)
+            for (int i = 0; i < 3; i++) {
+                embed_doc(&d, EMB[i]);
+                sarg a = { 1, 1, 0, what, &d, 1 };
+                size_t u = measure(&a);
+                if (!warm) continue;
+                if (u < lo) { lo = u; snprintf(lo_at, sizeof lo_at, "embedded documents=%d", EMB[i]); }
+                if (u > hi) { hi = u; snprintf(hi_at, sizeof hi_at, "embedded documents=%d", EMB[i]); }
+                FAM(2, u);
+                vw_count("stack_measurements", 1);
+                vw_nontrivial(vh_hash(&EMB[i], sizeof(int), 120 + (uint64_t)what));
             }
         /* and for input nested far deeper than the parser's own limit (max_depth 1): get_raw / to_writer / skip must refuse iteratively */
         static const int DEEP[] = { 2, 60, 1000 };
@@ -363,16 +398,29 @@ static void stack_mode(void)
                 if (!warm) continue;
                 if (u < lo) { lo = u; snprintf(lo_at, sizeof lo_at, "max_depth=1, input nesting=%d", DEEP[i]); }
                 if (u > hi) { hi = u; snprintf(hi_at, sizeof hi_at, "max_depth=1, input nesting=%d", DEEP[i]); }
+                FAM(3, u);
                 vw_count("stack_measurements", 1);
                 vw_nontrivial(vh_hash(&DEEP[i], sizeof(int), 80 + (uint64_t)what));
             }
-        size_t spread_max = what == 0 ? 64 : 1024, budget = what == 0 ? 2048 + 1024 : 48 * 1024;
+        /* two bounds: inside a family the call sequence is identical and only the input grows, so the high-water marks must agree
+         * (measured on the unchanged tree: 0 B parse/write, <= 24 B text, where libc's printf takes different paths); across families
+         * the call chains differ legitimately (64 B / 112 B on the unchanged tree) */
+        size_t fam_max = what == 0 ? 48 : 512;
+        size_t spread_max = what == 0 ? 256 : 1024, budget = what == 0 ? 2048 + 1024 : 48 * 1024;
         vw_max(what == 0 ? "max_stack_bytes_parse_write" : "max_stack_bytes_text", hi);
         vw_max(what == 0 ? "max_stack_spread_parse_write" : "max_stack_spread_text", hi - lo);
+        for (int f = 0; f < 4; f++) if (fhi[f]) { char nm[64]; snprintf(nm, sizeof nm, "max_stack_spread_%s_family%d", what == 0 ? "parse_write" : "text", f); vw_max(nm, fhi[f] - flo[f]); }
         char s[300];
         snprintf(s, sizeof s, "%s: stack high-water %zu B (%s) .. %zu B (%s) over object nesting {1,8,64,255} x array nesting {1,255} x string {1,70000} and widths {1,60,1000}", what == 0 ? "verify/navigate/lookup/get_raw/to_writer/write" : "to_string/print", lo, lo_at, hi, hi_at);
         vw_sample(s);
-        if (hi - lo > spread_max) vw_violation(what == 0 ? "c17:stack-depends-on-input" : "c17:stack-depends-on-input:text", "%s — spread %zu B exceeds %zu B: stack use depends on the input", s, hi - lo, spread_max);
+        static const char *FAMN[] = { "nesting/payload", "width", "embedded documents", "input deeper than max_depth" };
+        bool famv = false;
+        for (int f = 0; f < 4; f++) if (fhi[f] && fhi[f] - flo[f] > fam_max) {
+            famv = true;
+            vw_violation(what == 0 ? "c17:stack-depends-on-input" : "c17:stack-depends-on-input:text", "%s — in the %s family (same calls, only the input grows) the high-water mark ranges over %zu..%zu B, spread %zu B exceeds %zu B: stack use depends on the input", s, FAMN[f], flo[f], fhi[f], fhi[f] - flo[f], fam_max);
+        }
+        if (famv) { }
+        else if (hi - lo > spread_max) vw_violation(what == 0 ? "c17:stack-depends-on-input" : "c17:stack-depends-on-input:text", "%s — spread %zu B exceeds %zu B: stack use depends on the input", s, hi - lo, spread_max);
         else if (hi > budget) vw_violation("c17:stack-budget", "%s — above the budget of %zu B", s, budget);
     }
 #ifdef BINSON_PARSER_WITH_PRINT
